@@ -34,7 +34,7 @@ PROBES = ["closure_writer", "closure_export", "closure_compress", "closure_repac
           "closure_join", "copy_same_valid", "corrupt_single", "corrupt_pair", "corrupt_copy_compared",
           "k_feat_len", "k_contour_len", "k_roi", "k_unknown_feat", "k_missing_key", "k_index", "k_channel_count",
           "k_laser_count", "k_samples", "k_extlink", "k_nonpositive", "fluorescence_product", "trace_without_flmax",
-          "stored_index", "fl3_only_product", "index_rewritten_in_replace_mode", "export_feature_subset",
+          "stored_index", "fl3_only_product", "index_rewritten_in_replace_mode", "export_feature_subset", "switched_off_laser_defined", "checked_before_corrupted_in_place",
           "basin_export_without_some_features"]
 COMPONENTS = {
     "real": ["dclab.rtdc_dataset.check (IntegrityChecker, check_dataset)", "dclab RTDCWriter, export.hdf5, cli compress/repack/"
@@ -114,7 +114,7 @@ class World:
                     "trace": (fl and r.random() < 0.6) or (not fl and r.random() < 0.12), "image": r.random() < 0.6,
                     "mask": r.random() < 0.5, "contour": r.random() < 0.3, "index": r.random() < 0.3,
                     "flset": r.choice([[1, 2], [1, 2], [1], [2], [3], [3], [1, 3], [1, 2, 3]]),
-                    "rewrite_index": r.random() < 0.25,
+                    "rewrite_index": r.random() < 0.25, "laser_off": r.random() < 0.3,
                     "cmp": r.choice(["zstd", "zstd1", "gzip", "none"])}
         src = r.randrange(1 << 16)
         if x < 0.22:
@@ -234,6 +234,11 @@ class World:
                 m.feats[f"fl{ch}_max"] = vals[j % len(vals)].copy()
                 m.meta["fluorescence"][f"channel {ch} name"] = ["525/50", "593/46", "700/75"][ch - 1]
             m.meta["fluorescence"]["channel count"] = len(flset)
+            if op.get("laser_off"):
+                # an installed third laser that is switched off (power 0): defined, but not part of the laser count
+                m.meta["fluorescence"]["laser 3 lambda"] = 640.0
+                m.meta["fluorescence"]["laser 3 power"] = 0.0
+                ctx.probe("switched_off_laser_defined")
             if flset == [3]:
                 ctx.probe("fl3_only_product")
         name = self.newname("w")
@@ -398,6 +403,10 @@ class World:
             return
         name = self.newname("x")
         shutil.copyfile(self.dir / src["name"], self.dir / name)
+        if seeds.rng(op["dseed"], "check-before").random() < 0.4:
+            # the same path is checked while still intact, then modified in place and checked again
+            self.check(name, "before_corruption")
+            ctx.probe("checked_before_corrupted_in_place")
         applied = []
         state = {"touched": set(), "kinds": list(op["kinds"]), "src": src["name"]}
         with h5py.File(self.dir / name, "a") as h:
@@ -611,6 +620,16 @@ class World:
 
     def c_laser_count(self, h, r, st):
         # EXPECT check_fl_num_lasers: "Metadata: fluorescence laser count inconsistent"
+        ev = h.get("events", {})
+        on = [i for i in (1, 2, 3) if f"fluorescence:laser {i} lambda" in h.attrs and f"fluorescence:laser {i} power" in h.attrs
+              and float(h.attrs[f"fluorescence:laser {i} power"]) != 0]
+        if (r.random() < 0.4 and on and any(f"fl{i}_max" in ev for i in (1, 2, 3)) and "fluorescence:laser count" in h.attrs
+                and "fluorescence:laser count" not in st["touched"]):
+            # a counted laser is switched off while the count stays
+            i = r.choice(on)
+            h.attrs[f"fluorescence:laser {i} power"] = 0.0
+            st["touched"].add("fluorescence:laser count")
+            return {"descr": f"fluorescence:laser {i} power -> 0 (laser count unchanged)", "cues": ["fluorescence laser count inconsistent"]}
         return self._count(h, r, st, "fluorescence:laser count", "fluorescence laser count inconsistent")
 
     def c_samples(self, h, r, st):
